@@ -42,11 +42,19 @@ OPS = [
 
 
 def sh(cmd, cwd=None, env=None, timeout=3600):
+    # own process group, killed as a whole on timeout (a mutant may make a grandchild spin forever)
+    import signal
+    p = subprocess.Popen(cmd, cwd=cwd, env=env, stdout=subprocess.PIPE, stderr=subprocess.STDOUT, text=True, start_new_session=True)
     try:
-        p = subprocess.run(cmd, cwd=cwd, env=env, stdout=subprocess.PIPE, stderr=subprocess.STDOUT, text=True, timeout=timeout)
-        return p.returncode, p.stdout
-    except subprocess.TimeoutExpired as e:
-        return 124, (e.stdout or "") if isinstance(e.stdout, str) else ""
+        out, _ = p.communicate(timeout=timeout)
+        return p.returncode, out
+    except subprocess.TimeoutExpired:
+        try:
+            os.killpg(p.pid, signal.SIGKILL)
+        except ProcessLookupError:
+            pass
+        out, _ = p.communicate()
+        return 124, out or ""
 
 
 def sites(text):
@@ -78,6 +86,8 @@ def main():
         os.makedirs(base, exist_ok=True)
         rc, o = sh(["git", "-C", "/repo", "worktree", "add", "--detach", repo, "HEAD"])
         assert rc == 0, o
+    if os.path.exists(verif):
+        sh(["git", "-C", verif, "checkout", "--detach", sh(["git", "-C", "/verif", "rev-parse", "HEAD"])[1].strip()])
     if not os.path.exists(verif):
         rc, o = sh(["git", "-C", "/verif", "worktree", "add", "--detach", verif, "HEAD"])
         assert rc == 0, o
@@ -119,6 +129,9 @@ def main():
                 viol = re.findall(r"^VIOLATION property=\S+ replay=(\S+)(.*)$", o2, re.M)
                 kinds = sorted({os.path.basename(v[0]).rsplit("_", 1)[0] for v in viol})
                 rec["checks"][pid] = kinds if rc2 == 1 else ("exit%d" % rc2 if rc2 else "pass")
+                if rc2 == 124:
+                    rec["status"] = "check-timeout"
+                    break
                 if rc2 == 1 and viol and kinds != ["machinery.json"]:
                     rec["status"] = "caught"
                     rec["caught_by"] = pid
